@@ -156,11 +156,12 @@ impl FileManager {
 
         match file_mode {
             FileMode::Random => {
+                // an existing random-access file keeps its records
                 let file = OpenOptions::new()
                     .read(true)
                     .write(true)
                     .create(true)
-                    .truncate(true)
+                    .truncate(false)
                     .open(file_name)?;
                 self.handle_map
                     .insert(handle, FileInfo::new_random(file, rec_len));
